@@ -5,13 +5,60 @@ from vf import gen, e1run, hooks
 KINDS = ("bound_excludes", "over_constrained", "spurious_failure", "other_exception")
 
 
+def rng_build(item):
+    """RandState.randint(low, high) hands the request to the generator unchanged and returns its draw unchanged: every value
+    of [low, high] stays reachable with the generator's own (uniform) law.  low/high symbolic up to 2^(bits) apart."""
+    from vf import symex, e3
+    from vf.symex import And
+    import vsc.model.rand_state as RS
+    bits = item["bits"]
+    swap = item["swap"]
+
+    def h(sym):
+        lim = 1 << bits
+        low = sym.int("low", -lim, lim)
+        span = sym.int("span", 0 if not swap else 1, lim)
+        high = low + span
+        d = sym.int("draw", -2 * lim - 2, 2 * lim + 2)
+        calls = []
+
+        class Gen(object):
+            def randint(self, a, b):
+                calls.append(("randint", a, b))
+                sym.assume(And(d >= a, d <= b))
+                return d
+
+            def random(self):
+                calls.append(("random",))
+                raise symex.Unsupported("float draw")
+
+            def getrandbits(self, k):
+                calls.append(("getrandbits", k))
+                raise symex.Unsupported("getrandbits")
+        rs = RS.RandState.__new__(RS.RandState)
+        rs.rng = Gen()
+        try:
+            r = rs.randint(high, low) if swap else rs.randint(low, high)
+        except symex.Unsupported:
+            r = None
+        sym.check("one_integer_draw_over_the_requested_range", len(calls) == 1 and calls[0][0] == "randint")
+        if r is not None and len(calls) == 1 and calls[0][0] == "randint":
+            sym.check("range_passed_unchanged", And(calls[0][1] == low, calls[0][2] == high))
+            sym.check("draw_returned_unchanged", r == d)
+    return dict(harness=h, theory="int", sig={"harness": "randstate_randint", "bits": bits}, standins=lambda: e3.pyvsc_standins([RS]), max_paths=200,
+                max_seconds=60, desc="RandState.randint span <= 2^%d%s" % (bits, " (bounds swapped)" if swap else ""))
+
+
 def main():
     assert_repo_import()
     chk = Check("C14", "translation_validation",
                 explanation="for every program and every random field f, the value domain D_f that the call actually handed to the swizzler (or "
                             "drew an unconstrained field from) is taken from the real run, and z3 decides, over ALL values of the random fields, "
                             "that Ref /\\ x_f not in D_f is unsatisfiable - i.e. every value f takes in some solution of the reference constraints "
-                            "lies in the inferred range; in addition the asserted hard formula must not exclude reference solutions (Q2)",
+                            "lies in the inferred range; in addition the asserted hard formula must not exclude reference solutions (Q2); the "
+                            "randomising constraints built for a drawn target force the field to it (kernel, symbolic target, single- and multi-range "
+                            "domains); RandState.randint passes the requested range to the generator and returns its draw unchanged (E3, symbolic "
+                            "bounds up to 2^128 apart)",
                 functions=["vsc.visitors.variable_bound_visitor.VariableBoundVisitor", "vsc.visitors.is_nonrand_expr_visitor", "vsc.model.variable_bound_*_propagator",
                            "vsc.model.variable_bound_model / scalar / enum", "vsc.model.rangelist_model", "vsc.model.solvegroup_swizzler_partsel.swizzle",
                            "vsc.model.randomizer.Randomizer.randomize (unconstrained fields)"])
@@ -41,9 +88,13 @@ def main():
         if r["verdict"] == "sat":
             chk.violation({"kind": "swizzle_target", "signed": cfg[1]}, "width %d %s domain [%d,%d]: the randomising constraints for a drawn target do not "
                           "determine the field, the rest is left to the solver's default model (values can be starved): %s" % (
-                              cfg[0], "signed" if cfg[1] else "unsigned", cfg[2], cfg[3], r["model"]), {"engine": "kernel", "cfg": cfg, "model": r["model"]})
+                              cfg[0], "signed" if cfg[1] else "unsigned", cfg[2] if not isinstance(cfg[2], list) else -1, cfg[3], str(cfg[2]) + " " + str(r["model"])),
+                          {"engine": "kernel", "cfg": cfg, "model": r["model"]})
         elif r["verdict"] != "unsat":
             chk.note_inconclusive("kernel %s: %s" % (cfg, r["verdict"]))
+    # the RNG wrapper the domains are drawn through
+    from vf import e3
+    e3.run_e3(chk, [dict(bits=b, swap=sw) for b in (8, 31, 32, 33, 53, 54, 64, 65, 128) for sw in (False, True)], rng_build, replay_module="checks.c14:rng_build", chunk=1)
     chk.finish()
 
 
